@@ -98,7 +98,7 @@ Proof. exact tie_flatten2. Qed.
 (* ---- T1: the one-expression bodies this property's code consists of besides the modelled core, as they stand
         in the source now (coq/gen/GenSigs.v gen_thin_bodies) ---- *)
 From Coq Require Import String.
-From GA Require Import SigTie.
+From GA Require Import SigDefs.
 From GAGen Require Import GenSigs.
 Local Open Scope string_scope.
 
@@ -115,7 +115,7 @@ Theorem C03_source_thin_bodies :
 Proof. repeat split. Qed.
 
 (* the builders' endings and the owning builder's extend, as they stand in src/internal.rs now *)
-From GA Require Import CollectTie.
+From GA Require Import Pipe Collect.
 From GAGen Require Import GenCollect.
 Theorem C03_source_builder_endings :
   small_of "ArrayBuilder" "assume_init" =
@@ -123,4 +123,4 @@ Theorem C03_source_builder_endings :
           "mem :: forget (self) ;"; "GenericArray :: assume_init (array)"] /\
   small_of "IntrusiveArrayBuilder" "finish" = Some ["debug_assert ! (self . is_full ()) ;"; "mem :: forget (self)"] /\
   gen_array_builder_extend = gen_extend.
-Proof. exact (conj (proj1 tie_builder_endings) (conj (proj2 tie_builder_endings) tie_array_builder_extend)). Qed.
+Proof. repeat split. Qed.
